@@ -106,24 +106,28 @@ def history(ctx, cfg):
 
 def reopen(ctx, cfg):
     from probables import BloomFilter, BloomFilterOnDisk
-    fs, f = _open(ctx, cfg)
+    table = {}
+    hf = lambda key, depth=1: table.get(key, [3, 5, 7, 11, 13, 17, 19, 23, 29, 31])[:depth]  # noqa: E731  (a hand-written strategy, supplied again on reopen)
+    fs, f = _open(ctx, dict(cfg, hf=hf))
     L, k, m = f.bloom_length, f.number_hashes, f.number_bits
     bits, N = _sym_content(ctx, fs, f)
     old, new = hv(ctx, "old", k, m), hv(ctx, "new", k, m)
+    table["old key"], table["new key"] = old, new
     ctx.assume(f.check_alt(old) is True)
-    f.add_alt(new)
+    f.add("new key")
     f.close()
     cwd = ctx.int("cwd", 0, 1)
     fs.chdir(ctx.conc(cwd))
     elsewhere = "-from-other-directory" if ctx.conc(cwd) != 0 else ""
     try:
-        g = BloomFilterOnDisk(fs.path(0, "x.blm"))
+        g = BloomFilterOnDisk(fs.path(0, "x.blm"), hash_function=hf)
     except FileNotFoundError:
         ctx.check(False, "reopen-same-file" + elsewhere)
         return
     ctx.on_exit(g.close)
     ctx.check(g.number_bits == m and g.number_hashes == k, "reopen-geometry")
     ctx.check(g.check_alt(new) is True and g.check_alt(old) is True, "reopen-keys")
+    ctx.check(g.check("new key") is True and g.check("old key") is True and ("new key" in g) is True, "reopen-keys-by-key")
     ctx.check(ctx.eq(g.elements_added, N + 1), "reopen-count")
     g.close()
     again = BloomFilter.frombytes(fs.read(0, "x.blm"))
